@@ -36,7 +36,7 @@ from hpstatic.terms import (sym, intern, show, subterms, calls_in, NONE, num, kw
                             is_num)
 from hpstatic.xrnorm import atom_rewrite
 from .c05 import subst
-from .common import lt_form
+from .common import lt_form, canon_call, call_args, term_args
 from .common import is_sum
 
 MUTATION_TARGETS = {'holopy/scattering/theory/mielensfunctions.py': ['calculate_al_bl', 'riccati_psin', 'riccati_xin', 'calculate_pil_taul', '_eval', 'spherical_h2n'], 'holopy/scattering/theory/mie_f/miescatlib.py': ['scatcoeffs'], 'holopy/scattering/theory/mie_f/multilayer_sphere_lib.py': ['scatcoeffs_multi'], 'holopy/scattering/scatterer/sphere.py': ['r'], 'holopy/scattering/theory/mie.py': ['_scat_coeffs'], 'holopy/scattering/theory/mie_f/mie_specfuncs.py': ['Qratio'], 'holopy/scattering/theory/multisphere.py': ['_scsmfo_setup']}
@@ -309,7 +309,7 @@ def albl(check, prog, canon):
 
     def f(fn, z, d):
         kws = (('derivative', ('const', True)),) if d else ()
-        return intern(('call', fn, (l_, z), kws))
+        return canon_call(prog, fn, (l_, z), kws)
     # xi_n is built on h2_n = j_n - i y_n (checked below): the formulas are those of
     # the e^{+i w t} convention (van de Hulst), whose results are the complex
     # conjugates of the library's Lorenz-Mie (Bohren & Huffman) ones, and in which
@@ -363,7 +363,8 @@ def albl(check, prog, canon):
             got = res.ret
             fz = intern(('call', base, (order, z), ()))
             if base.endswith('spherical_h2n'):
-                dfz = intern(('call', base, (order, z), (('derivative', sym('derivative')),)))
+                dfz = canon_call(prog, base, (order, z),
+                                 (('derivative', sym('derivative')),))
             else:
                 dfz = intern(('call', base, (order, z), (('derivative', ('const', True)),)))
             want = intern(('bin', '*', z, fz)) if not d else \
